@@ -28,6 +28,8 @@ theorem captionCommand_evst {s : St} (h : Inv s) (c1 c2 : Nat) (f2 : Bool) (hq :
   all_goals first
     | exact EvSt.refl _
     | exact switchChannel_evst h hc9 _
+    | exact modCh_evst h (edmChan_lt hc9) (fun ch _ hc => eraseDisplayed_ev hc)
+    | exact modCh_evst h (edmChan_lt hc9) (fun ch _ hc => eraseNonDisplayed_ev hc)
     | (apply modCh_evst h hc9
        intro ch hget hc
        first
